@@ -161,6 +161,20 @@ class SymBackend:
             return False
         return isinstance(x, (self.S.Sym, Fraction, int, float, np.floating, np.integer))
 
+    # -- nondeterminism stubs (DESIGN.md C05/C06/C07): the harness scripts every random draw ------------
+    def stub_bernoulli(self, fn):
+        """fn(p: ndarray of probabilities) -> ndarray of 0/1 outcomes of the same shape"""
+        self.torch.RNG.bernoulli_fn = lambda p: np.asarray(fn(p))
+
+    def stub_randperm(self, fn):
+        self.torch.RNG.randperm_fn = lambda n: np.asarray(fn(n))
+
+    def stub_randint(self, fn):
+        self.torch.RNG.randint_fn = lambda high, size: np.asarray(fn(high, size))
+
+    def stub_randn(self, fn):
+        self.torch.RNG.randn_fn = fn
+
 
 class RealBackend:
     symbolic = False
@@ -204,8 +218,9 @@ class RealBackend:
         return self._val(name)
 
     def load(self, param, arr):
-        with self.torch.no_grad():
-            param.copy_(self.torch.tensor(np.asarray(arr, dtype=float), dtype=param.dtype))
+        # written through .data, as QuCumber users set parameters by hand (does not bump the autograd version
+        # counter; the symbolic backend's load has the same meaning)
+        param.data.copy_(self.torch.tensor(np.asarray(arr, dtype=float), dtype=param.dtype))
 
     def tensor(self, arr, dtype=None):
         return self.torch.tensor(np.asarray(arr, dtype=float), dtype=dtype or self.torch.double)
@@ -222,6 +237,47 @@ class RealBackend:
         if isinstance(x, (bool, np.bool_)):
             return False
         return isinstance(x, (int, float, np.floating, np.integer))
+
+    def stub_bernoulli(self, fn):
+        torch = self.torch
+
+        def fake(p, out=None, **kw):
+            r = torch.tensor(np.asarray(fn(p.detach().cpu().numpy().copy()), dtype=float), dtype=p.dtype)
+            if out is not None:
+                out.copy_(r)
+                return out
+            return r
+
+        class FakeBernoulli:
+            def __init__(self, probs=None, logits=None, **kw):
+                self.probs = probs
+
+            def sample(self, sample_shape=()):
+                p = np.full(tuple(sample_shape), float(self.probs))
+                return torch.tensor(np.asarray(fn(p), dtype=float), dtype=torch.get_default_dtype())
+
+        torch.bernoulli = fake
+        torch.distributions.Bernoulli = FakeBernoulli
+
+    def stub_randperm(self, fn):
+        torch = self.torch
+        torch.randperm = lambda n, **kw: torch.tensor(np.asarray(fn(int(n)), dtype=np.int64))
+
+    def stub_randint(self, fn):
+        torch = self.torch
+
+        def fake(*a, **kw):
+            if len(a) >= 2 and not isinstance(a[1], (tuple, list)):
+                raise RuntimeError("randint(low, high, ...) form is not scripted")
+            high = a[0]
+            size = kw.get("size", a[1] if len(a) > 1 else None)
+            return torch.tensor(np.asarray(fn(int(high), tuple(size)), dtype=np.int64))
+
+        torch.randint = fake
+
+    def stub_randn(self, fn):
+        torch = self.torch
+        torch.randn = lambda *shape, **kw: torch.tensor(np.asarray(fn(tuple(shape)), dtype=float), dtype=kw.get("dtype") or torch.get_default_dtype())
 
 
 def _sym_derivatives(B, f, arrays):
